@@ -21,9 +21,11 @@ out = ["# Seeded changes (written by sub-agents that saw only the property text 
        "non-zero with the patch), `notes.md`, `pyst_shim.py` (environment adaptation used by the demo) and `meta.json` written by "
        "`tools/seed_eval.py`: the demo was re-run in a fresh scratch copy in both directions, the pinned pytest suite was run on the patched "
        "copy (all 414 stable tests must still pass), and the listed quick checks were run against the patched copy "
-       "(`PYTHONPATH=<scratch copy>`; /repo itself is never modified). To run a check against a change in /repo itself: "
+       "(`PYTHONPATH=<scratch copy>`; /repo itself is never modified). Rounds: unprefixed = round 1, `r2_` .. `r4_` = later rounds (each round's "
+       "agents were told which ideas were already taken). The last column is what the property's own check did BEFORE the machinery was widened in "
+       "response (tools/seed_base_eval.py). To run a check against a change in /repo itself: "
        "`git -C /repo apply /verif/seeded/<name>/patch.diff; /venv/bin/python check.py <ID>; git -C /repo checkout -- .`\n",
-       "| change | breaks | needs to manifest | demo confirmed | stable tests broken | detected by (quick, current checks) | not detected by | own check BEFORE it was strengthened for this change |",
+       "| change | breaks | needs to manifest | demo confirmed | stable tests broken | detected by (quick, current checks) | not detected by | own check at the start of the session in which the change was written (rounds 3/4: /verif commit bf5e198; rounds 1/2: first evaluation) |",
        "|---|---|---|---|---|---|---|---|"]
 for r in rows:
     out.append("| " + " | ".join(str(x) for x in r) + " |")
